@@ -52,6 +52,7 @@ def step (s : St) (line : String) : St × String :=
   | "life" :: r => (s, Drv.life r)
   | "timers" :: r => (s, Drv.timers r)
   | "pathm" :: r => (s, Drv.pathm r)
+  | "lossd" :: r => (s, Drv.lossd r)
   | "udp" :: r => (s, Drv.udp r)
   | "dedup" :: r => let (d, o) := Drv.dedup s.dedup r; ({ s with dedup := d }, o)
   | "sbuf" :: r => let (d, o) := Drv.sbuf s.sbuf r; ({ s with sbuf := d }, o)
